@@ -206,7 +206,9 @@ enum Associativity {
 /// requires parentheses to disambiguate. We just treat them as left associative.
 ///
 /// Returns (binding power : u8, operator : SyntaxKind, associativity : Associativity)
-/// Look at canonical example: `+` has bp 10 and `*` has bp 11.
+/// The order is that of the OpenQASM 3 grammar, loosest first: `||`, `&&`, `|`, `^`, `&`,
+/// equality, comparison, shifts, additive, multiplicative.
+/// Look at canonical example: `+` has bp 11 and `*` has bp 12.
 #[rustfmt::skip]
 fn current_op(p: &Parser<'_>) -> (u8, SyntaxKind, Associativity) {
     use Associativity::*;
@@ -216,45 +218,45 @@ fn current_op(p: &Parser<'_>) -> (u8, SyntaxKind, Associativity) {
     match p.current() {
         T![|] if p.at(T![||])  => (3,  T![||],  Left),
         T![|] if p.at(T![|=])  => (1,  T![|=],  Right),
-        T![|]                  => (6,  T![|],   Left),
+        T![|]                  => (5,  T![|],   Left),
         T![>] if p.at(T![>>=]) => (1,  T![>>=], Right),
-        T![>] if p.at(T![>>])  => (9,  T![>>],  Left),
-        T![>] if p.at(T![>=])  => (5,  T![>=],  Left),
-        T![>]                  => (5,  T![>],   Left),
+        T![>] if p.at(T![>>])  => (10, T![>>],  Left),
+        T![>] if p.at(T![>=])  => (9,  T![>=],  Left),
+        T![>]                  => (9,  T![>],   Left),
         T![=] if p.at(T![=>])  => NOT_AN_OP,
-        T![=] if p.at(T![==])  => (5,  T![==],  Left),
+        T![=] if p.at(T![==])  => (8,  T![==],  Left),
         // r-a had 1 as the bp here. But this attempts to parse
         // `x + y = 3`; as `(x + y) = 3;` which is probably not what the user meant.
         // Putting 12 as the bp instead of 1 parses this as
         // `x + (y = 3)`. In OQ3, this is still illegal, but the user will get a more
         // informative error message. That an assignment statement is not allowed here.
         // This may have unintended consequences and we will need to replace the 12 with 1.
-        T![=]                  => (12,  T![=],   Right),
-        T![<] if p.at(T![<=])  => (5,  T![<=],  Left),
+        T![=]                  => (13,  T![=],   Right),
+        T![<] if p.at(T![<=])  => (9,  T![<=],  Left),
         T![<] if p.at(T![<<=]) => (1,  T![<<=], Right),
-        T![<] if p.at(T![<<])  => (9,  T![<<],  Left),
-        T![<]                  => (5,  T![<],   Left),
+        T![<] if p.at(T![<<])  => (10, T![<<],  Left),
+        T![<]                  => (9,  T![<],   Left),
         T![+] if p.at(T![+=])  => (1,  T![+=],  Right),
         // `++` is the concatenation op and should have some low value for bp.
         T![+] if p.at(T![++])  => (2,  T![++],  Left),
         T![*] if p.at(T![**])  => (7,  T![**],  Left),
-        T![+]                  => (10, T![+],   Left),
+        T![+]                  => (11, T![+],   Left),
         T![^] if p.at(T![^=])  => (1,  T![^=],  Right),
-        T![^]                  => (7,  T![^],   Left),
+        T![^]                  => (6,  T![^],   Left),
         T![%] if p.at(T![%=])  => (1,  T![%=],  Right),
-        T![%]                  => (11, T![%],   Left),
+        T![%]                  => (12, T![%],   Left),
         T![&] if p.at(T![&=])  => (1,  T![&=],  Right),
         T![&] if p.at(T![&&])  => (4,  T![&&],  Left),
-        T![&]                  => (8,  T![&],   Left),
+        T![&]                  => (7,  T![&],   Left),
         T![/] if p.at(T![/=])  => (1,  T![/=],  Right),
-        T![/]                  => (11, T![/],   Left),
+        T![/]                  => (12, T![/],   Left),
         T![*] if p.at(T![*=])  => (1,  T![*=],  Right),
-        T![*]                  => (11, T![*],   Left),
+        T![*]                  => (12, T![*],   Left),
         T![.] if p.at(T![..=]) => (2,  T![..=], Left),
         T![.] if p.at(T![..])  => (2,  T![..],  Left),
-        T![!] if p.at(T![!=])  => (5,  T![!=],  Left),
+        T![!] if p.at(T![!=])  => (8,  T![!=],  Left),
         T![-] if p.at(T![-=])  => (1,  T![-=],  Right),
-        T![-]                  => (10, T![-],   Left),
+        T![-]                  => (11, T![-],   Left),
         _                      => NOT_AN_OP
     }
 }
